@@ -790,7 +790,8 @@ def rule_dbg_pure(ctx):
                           "std::option::Option::expect", "std::option::Option::map_or", "std::result::Result::is_",
                           "std::result::Result::as_ref", "std::ptr::const_ptr::", "std::ptr::mut_ptr::is_null",
                           "std::ptr::mut_ptr::cast", "std::ptr::eq", "std::mem::size_of", "std::mem::align_of", "core::slice::",
-                          "std::slice::", "std::convert::", "core::convert::", "core::bool::", "std::sync::Arc::ptr_eq")):
+                          "std::slice::", "std::convert::", "core::convert::", "core::bool::", "std::sync::Arc::ptr_eq", "core::tuple::",
+                          "core::array::equality::", "core::str::")):
             return True
         if nt.endswith((" as std::ops::Deref>::deref", " as std::cmp::PartialEq>::eq", " as std::cmp::PartialEq>::ne",
                         " as std::fmt::Debug>::fmt", " as std::clone::Clone>::clone")) and target not in prog.bodies:
